@@ -363,6 +363,10 @@ def comp_line(c: dict) -> str:
         return f"comp {w} shared {esc(c['agent'])}"
     if k == "actionpenalty":
         return f"comp {w} actionpenalty {tok(c['ap'])} {tok(c['dn'])}"
+    if k == "unknown":
+        return f"comp {w} unknown {esc(c['type'])}"
+    if k == "invalid":
+        return f"comp {w} invalid"
     raise ValueError(k)
 
 
@@ -408,15 +412,27 @@ def model_lines(case: dict, capture: dict) -> List[str]:
         lines.append(state_line(stp["dict"] if "dict" in stp else state_dict(stp["state"])))
         for ref, it in stp["items"].items():
             lines.append(item_line(ref, it, it.get("timestep", k)))
+        if "truth" in stp:  # the live objects read at the same moment: every component must evaluate alike on `describeT truth`
+            lines.append("truth " + " ".join(pyval_words(stp["truth"])))
+            lines.append("truthcheck")
         lines.append("step")
         lines.append("mem")
+        lines.append("info")
         if stp.get("reset_after"):
+            if "new_agents" in stp:  # an episode schedule: the next episode is built from another configuration
+                lines.append("newconfig")
+                for ins, obs in stp.get("new_setorders", []):
+                    lines.append(f"setorder {lst(esc(x) for x in ins)} {lst(esc(x) for x in obs)}")
+                for a in stp["new_agents"]:
+                    lines.append(f"agent {esc(a['ref'])}")
+                    for c in a["comps"]:
+                        lines.append(comp_line(c))
             lines.append("envreset")
     lines.append("locs")
     return lines
 
 
-ANSWER_OPS = ("graph", "load", "step", "mem", "envreset", "locs", "fingerprint", "access", "restricted")
+ANSWER_OPS = ("graph", "load", "step", "mem", "info", "envreset", "locs", "fingerprint", "access", "restricted", "truthcheck")
 
 
 def answer_mask(lines: List[str]) -> List[bool]:
@@ -429,8 +445,20 @@ def answer_kinds(lines: List[str]) -> List[str]:
 
 
 # ------------------------------------------------------------------------------------------ implementation side
+INVALID_VARIANTS = ["no-type", "weight-not-a-number", "extra-key", "missing-option", "option-not-a-number", "shared-without-agent"]
+
+
 def comp_cfg(c: dict) -> dict:
     k = c["kind"]
+    if k == "unknown":  # a type that is not registered (misspelt, or a plugin that was not imported)
+        return {"type": c["type"], "weight": dbl(c["weight"] or "1")}
+    if k == "invalid":  # a registered type whose entry violates its schema
+        return {"no-type": {"weight": 1.0},
+                "weight-not-a-number": {"type": "dummy", "weight": "abc"},
+                "extra-key": {"type": "dummy", "wieght": 1.0},
+                "missing-option": {"type": "database-file-integrity", "weight": 1.0, "options": {"node_hostname": "x"}},
+                "option-not-a-number": {"type": "action-penalty", "weight": 1.0, "options": {"action_penalty": "x"}},
+                "shared-without-agent": {"type": "shared-reward", "weight": 1.0}}[c["variant"]]
     opts: Dict[str, Any] = {}
     if k == "file":
         opts = {"node_hostname": c["node"], "folder_name": c["folder"], "file_name": c["file"]}
@@ -525,6 +553,12 @@ def show_mem(game) -> str:
                 ms.append("_")
         out.append(f"{esc(k)}=" + ":".join(ms))
     return ",".join(out)
+
+
+def show_info(game) -> str:
+    """Fingerprint of `reward_info` of every agent's newest history item (what `update_reward` left there)."""
+    return ",".join(f"{esc(k)}=" + (str(fingerprint_words(pyval_words(a.history[-1].reward_info))) if a.history else "-")
+                    for k, a in game.agents.items())
 
 
 def show_locs(game) -> str:
@@ -693,6 +727,10 @@ class StepCheck:
                     self._bad(f"fresh game: agent {ref} starts with total_reward {ag.reward_function.total_reward!r}, "
                               f"current_reward {ag.reward_function.current_reward!r}, {len(ag.history)} history items")
 
+    def reconfigure(self, agents: List[dict]):
+        """The next episode runs another configuration (episode schedule)."""
+        self.desc = surviving(agents)
+
     def episode_end(self, game):
         """Before a reset: the episode total of every agent is the sum of the step rewards of THIS episode."""
         if game is None:
@@ -835,6 +873,8 @@ def run_impl(case: dict) -> Tuple[List[str], dict]:
         except KeyError:
             return None, "raised keyError"
         except Exception as e:  # anything else is reported verbatim and will not match the model
+            if type(e).__name__ == "ValidationError":
+                return None, "raised validationError"
             return None, f"raised other:{type(e).__name__}"
     with GraphTap() as tap, CalcTap() as ctap:
         game, ans = load()
@@ -851,7 +891,7 @@ def run_impl(case: dict) -> Tuple[List[str], dict]:
         ctap.last.clear()
         for k, stp in enumerate(case["steps"]):
             if game is None:
-                out += ["no-game", "no-game"]
+                out += ["no-game", "no-game", "no-game"]
             else:
                 try:
                     for ref, agent in game.agents.items():
@@ -864,9 +904,10 @@ def run_impl(case: dict) -> Tuple[List[str], dict]:
                     game.update_agents(state_dict(stp["state"]))
                     out.append("ok " + show_agents(game))
                     out.append(show_mem(game))
+                    out.append(show_info(game))
                     check.after_step(game, ctap, k + 1)
                 except tuple(EXC_KIND) as e:
-                    out += ["raised " + EXC_KIND[type(e)], "no-game"]
+                    out += ["raised " + EXC_KIND[type(e)], "no-game", "no-game"]
                     game = None
             if stp.get("reset_after"):
                 # what PrimaiteGymEnv.reset does to the reward layer: a fresh game from the same configuration, then update_agents
@@ -920,6 +961,11 @@ def oracle_all(case: dict, impl: List[str], capture: dict) -> List[str]:
     graph = declared_graph(agents)
     real = capture.get("graph")
     first = impl[0]
+    bad = [c["kind"] for a in agents for c in a["comps"] if c["kind"] in ("unknown", "invalid")]
+    if bad:  # an unregistered / ill-formed component: the game must not load (and nothing else is judged)
+        if first not in ("raised keyError", "raised validationError"):
+            out.append(f"bad component accepted: a configuration with {bad} components was not refused at load: {first}")
+        return out
     if real is None:
         if not first.startswith("raised other"):
             out.append("sharing graph: setup_reward_sharing never called graph_has_cycle")
@@ -952,6 +998,8 @@ def oracle_all(case: dict, impl: List[str], capture: dict) -> List[str]:
                     out.append(f"order not dependencies-first: evaluation order {order}: {u} shares from {v} (declared shares "
                                f"{graph[u]}) but is evaluated before it")
     out += capture.get("step_problems") or []
+    for lp in (capture.get("live_problems") or [])[:1]:
+        out.append("value differs from the live simulator objects: " + lp)
     for leak in (capture.get("leaks") or [])[:1]:
         out.append("component reads outside its leaf or own item: " + leak)
     game = capture.get("game")
@@ -1062,6 +1110,7 @@ ENV_WEIGHTS = ["1", "1/2", "1/4", "3/4", "-1/2", "2", "1/8", "3/8"]
 TYPE_KIND = {v: k for k, v in KIND_TYPE.items()}
 
 
+ENV_SCHEDULES = ["scenario_with_placeholders", "mini_scenario_with_simulation_variation", "uc7_multiple_attack_variants"]
 ENV_SHIPPED = ["data_manipulation", "uc7_config", "uc7_config_tap003", "action_penalty", "basic_switched_network",
                "fixing_duration_one_item", "nodes_with_initial_files", "shared_rewards", "software_fixing_duration",
                "test_application_install", "test_primaite_session", "data_manipulation_marl", "multi_agent_session"]
@@ -1102,6 +1151,12 @@ def _env_cfg(case: dict):
         cfg = yaml.safe_load((SRC / "config" / "_package_data" / "data_manipulation.yaml").read_text())
     elif src.startswith("shipped:"):
         cfg = scen.load_cfg(scen.shipped()[src.split(":", 1)[1]])
+    elif src.startswith("sched:"):
+        # a shipped episode SCHEDULE (a directory with schedule.yaml): the environment is given the directory as it is, the
+        # configuration of every episode comes from the real EpisodeListScheduler
+        from primaite.session.episode_schedule import build_scheduler
+        path = SRC / "config" / "_package_data" / src.split(":", 1)[1]
+        return str(path), agents_desc(build_scheduler(path)(0))
     elif src.startswith("gen:"):
         from harness.gen.scenario import gen_scenario
         _g, fam, size = src.split(":")
@@ -1139,11 +1194,16 @@ def _env_cfg(case: dict):
         if early and a.get("type") == "red-database-corrupting-agent" and isinstance(st, dict) and "start_step" in st:
             st["start_step"], st["frequency"], st["variance"] = rng.range(2, 8), rng.range(3, 8), rng.range(0, 1)
     cfg["agents"] = rng.shuffle(cfg["agents"])
+    return cfg, agents_desc(cfg)
+
+
+def agents_desc(cfg: dict) -> List[dict]:
+    """The agents of a configuration with their reward components, as the `game` family describes them."""
     agents = []
     rat = lambda x: show(Fraction(float(x)))  # noqa: E731
     for a in cfg["agents"]:
         comps = []
-        for c in a.get("reward_function", {}).get("reward_components", []):
+        for c in (a.get("reward_function") or {}).get("reward_components", []) or []:
             o = c.get("options") or {}
             if c["type"] not in TYPE_KIND:
                 raise ValueError(f"reward component type {c['type']} is not modelled")
@@ -1161,7 +1221,7 @@ def _env_cfg(case: dict):
                 d.update(ap=rat(o.get("action_penalty", -1.0)), dn=rat(o.get("do_nothing_penalty", 0.0)))
             comps.append(d)
         agents.append({"ref": a["ref"], "comps": comps})
-    return cfg, agents
+    return agents
 
 
 def _dyadic(sv: Optional[str]) -> bool:
@@ -1169,6 +1229,164 @@ def _dyadic(sv: Optional[str]) -> bool:
         return True
     f = frac(sv)
     return f.denominator & (f.denominator - 1) == 0 and f.denominator <= 64 and abs(f.numerator) <= 1024
+
+
+def live_truth(game, hostnames) -> List[dict]:
+    """The simulator OBJECTS a reward component can be about, read directly (attributes of the live objects, not
+    `describe_state()`), for the nodes with one of the given hostnames — the wire form of Model/RewardTruth.lean `Truth`."""
+    def files(d):
+        return [{"name": f.name, "health": int(f.health_status.value)} for f in d.values()]
+
+    def folders(d):
+        return [{"name": fo.name, "files": files(fo.files), "deleted_files": files(fo.deleted_files)} for fo in d.values()]
+
+    def entry(h):
+        loaded = h.status.name == "LOADED"
+        return {"loaded": loaded, "code": int(h.response_code.value) if loaded and h.response_code is not None else 0,
+                "status": str(h.status.value)}
+    out = []
+    for node in game.simulation.network.nodes.values():
+        if node.config.hostname not in hostnames:
+            continue
+        out.append({
+            "hostname": node.config.hostname,
+            "folders": folders(node.file_system.folders), "deleted_folders": folders(node.file_system.deleted_folders),
+            "services": [{"name": sv.name, "codes": ([int(c.value) for c in sv.response_codes_this_timestep]
+                                                     if hasattr(sv, "response_codes_this_timestep") else None)}
+                         for sv in node.services.values()],
+            "applications": [{"name": ap.name, "history": ([entry(h) for h in ap.history] if hasattr(ap, "history") else None)}
+                             for ap in node.applications.values()]})
+    return out
+
+
+class LiveOracle:
+    """C10's ground truth for "evaluated on the post-step state": after every real step each component's value is recomputed
+    from the LIVE simulator objects (never from `describe_state()`), the agent's own newest history item and the oracle's own
+    record of the component's previous value — the specifications proved in Props/C10Truth.lean, restated in Python — and
+    compared with what the real `calculate` returned."""
+
+    def __init__(self):
+        self.mem: Dict[int, float] = {}
+        self.checked = 0
+        self.problems: List[str] = []
+        self.sent: Dict[int, List[int]] = {}  # web server object -> status codes of the HTTP responses it SENT in this step
+        self.sent_checked = 0
+
+    def __enter__(self):
+        """Independent account of "the responses of THIS step": every HTTP response a web server hands to `send` is recorded
+        (in-process wrapper on `WebServer.send`, removed on exit); `begin_step` empties the record."""
+        from primaite.simulator.system.services.web_server.web_server import WebServer
+        self._ws = WebServer
+        self._had_own = "send" in WebServer.__dict__
+        orig = WebServer.send
+        oracle = self
+
+        def send(self_, *a, **k):
+            payload = k.get("payload", a[0] if a else None)
+            code = getattr(payload, "status_code", None)
+            if code is not None:
+                oracle.sent.setdefault(id(self_), []).append(int(getattr(code, "value", code)))
+            return orig(self_, *a, **k)
+        self._orig_send = orig
+        WebServer.send = send
+        return self
+
+    def __exit__(self, *a):
+        if self._had_own:
+            self._ws.send = self._orig_send
+        else:
+            del self._ws.send
+
+    def begin_step(self):
+        self.sent.clear()
+
+    @staticmethod
+    def _last(objs, name_of, name):
+        found = None
+        for o in objs:
+            if name_of(o) == name:
+                found = o
+        return found
+
+    def expected(self, game, agent, comp, dc: dict):
+        k = dc["kind"]
+        item = agent.history[-1]
+        mem = self.mem.get(id(comp), 0.0)
+        nodes = list(game.simulation.network.nodes.values())
+        node = self._last(nodes, lambda n: n.config.hostname, dc.get("node")) if "node" in dc else None
+        if k == "dummy":
+            return 0.0
+        if k == "file":
+            fo = self._last(node.file_system.folders.values(), lambda f: f.name, dc["folder"]) if node is not None else None
+            fi = self._last(fo.files.values(), lambda f: f.name, dc["file"]) if fo is not None else None
+            if fi is None:
+                return 0.0
+            h = fi.health_status.value
+            return -1 if h == 2 else (1 if h == 1 else 0)
+        if k == "web404":
+            sv = self._last(node.services.values(), lambda x: x.name, dc["service"]) if node is not None else None
+            if sv is None:
+                return 0.0  # memory untouched
+            codes = [c.value for c in getattr(sv, "response_codes_this_timestep", [])]
+            if hasattr(sv, "response_codes_this_timestep"):
+                self.sent_checked += 1
+                if codes != self.sent.get(id(sv), []) and len(self.problems) < 3:
+                    self.problems.append(f"web server {dc['node']}/{dc['service']}: response_codes_this_timestep is {codes} at the end of the "
+                                         f"step but the responses it sent during this step were {self.sent.get(id(sv), [])}")
+            if codes:
+                v = sum(1.0 if c == 200 else -1.0 if c == 404 else 0.0 for c in codes) / len(codes)
+            else:
+                v = mem if dc["sticky"] else 0.0
+            self.mem[id(comp)] = v
+            return v
+        if k == "webpage":
+            br = self._last(node.applications.values(), lambda x: x.name, "web-browser") if node is not None else None
+            mem1 = 0.0 if br is None else mem
+            if list(item.request) != ["network", "node", dc["node"], "application", "web-browser", "execute"]:
+                v = mem1 if dc["sticky"] else 0.0
+            elif item.response.status != "success":
+                v = -1.0
+            elif br is None or not br.history:
+                v = 0.0
+            else:
+                h = br.history[-1]
+                if h.status.name == "LOADED":
+                    v = 1.0 if h.response_code.value == 200 else -1.0
+                else:
+                    v = 0.0 if h.status.value == "PENDING" else -1.0
+            self.mem[id(comp)] = v
+            return v
+        if k == "greendb":
+            if list(item.request) == ["network", "node", dc["node"], "application", "database-client", "execute"]:
+                v = 1.0 if item.response.status == "success" else -1.0
+            else:
+                v = mem if dc["sticky"] else 0.0
+            self.mem[id(comp)] = v
+            return v
+        if k == "actionpenalty":
+            return dbl(dc["dn"]) if item.action == "do-nothing" else dbl(dc["ap"])
+        if k == "shared":
+            other = game.agents.get(dc["agent"])
+            return other.reward_function.current_reward if other is not None else None
+        raise ValueError(k)
+
+    def after_step(self, game, tap: "CalcTap", desc: Dict[str, dict], step_no: int):
+        order = [r for r in game._reward_calculation_order if r in game.agents and r in desc]
+        for ref in order:
+            agent = game.agents[ref]
+            comps = agent.reward_function.reward_components
+            if len(comps) != len(desc[ref]["comps"]):
+                continue
+            for (comp, _w), dc in zip(comps, desc[ref]["comps"]):
+                got = tap.last.get(id(comp))
+                try:
+                    want = self.expected(game, agent, comp, dc)
+                except Exception as e:  # the oracle itself must not hide a problem
+                    want = f"oracle error {type(e).__name__}: {e}"
+                self.checked += 1
+                if want != got and len(self.problems) < 3:
+                    self.problems.append(f"step {step_no}: {dc['kind']} component of {ref} ({ {k2: v for k2, v in dc.items() if k2 in ('node', 'folder', 'file', 'service', 'sticky', 'agent')} }) "
+                                         f"returned {got!r} but the live simulator objects at the end of the step give {want!r}")
 
 
 def real_paths(game) -> List[List[str]]:
@@ -1206,6 +1424,7 @@ def run_env(case: dict) -> Tuple[List[str], dict]:
     from primaite.session.environment import PrimaiteGymEnv
     import logging
     cfg, agents = _env_cfg(case)
+    first_agents = agents
     logging.disable(logging.CRITICAL)
     random.seed(case["seed"])
     np.random.seed(case["seed"] % (1 << 31))
@@ -1228,18 +1447,31 @@ def run_env(case: dict) -> Tuple[List[str], dict]:
     steps = []
     capture: Dict[str, Any] = {"setorders": [], "aux": []}
     check = StepCheck(agents)
-    n_proxies = sum(1 for a in cfg["agents"] if a.get("type") == "proxy-agent")
+    live = LiveOracle()
+    hostnames = {c["node"] for a in agents for c in a["comps"] if "node" in c}
+    n_comps = sum(len(a["comps"]) for a in surviving(agents).values())
+    scheduled = isinstance(cfg, str)
+    n_proxies = 1 if scheduled else sum(1 for a in cfg["agents"] if a.get("type") == "proxy-agent")
     arng = Rng(case["seed"] + 17)
     reset_at = set(case.get("reset_at", []))
     full_at = set(case.get("full_state_at", [1]))
     try:
-        with GraphTap() as tap, CalcTap() as ctap:
+        with GraphTap() as tap, CalcTap() as ctap, live:
             env = None
-            if n_proxies == 1:
-                env = PrimaiteGymEnv(env_config=cfg)
-                game = env.game
-            else:  # several RL agents (or none): the game loop itself, every RL agent given a random action of its map
-                game = G.PrimaiteGame.from_config(cfg)
+            try:
+                if n_proxies == 1:
+                    env = PrimaiteGymEnv(env_config=cfg)
+                    game = env.game
+                else:  # several RL agents (or none): the game loop itself, every RL agent given a random action of its map
+                    game = G.PrimaiteGame.from_config(cfg)
+            except Exception as e:  # a shipped / generated scenario that does not load: reported, not a crash of the check
+                import traceback
+                in_update[0] = False
+                capture["observed"] = {"agents": first_agents, "steps": [], "exact": True}
+                capture["bounds"] = {}
+                capture["step_problems"] = [f"scenario does not load: {case.get('source')}: {type(e).__name__}: {e} | "
+                                            + traceback.format_exc()[-600:].replace("\n", " | ")]
+                return [f"raised other:{type(e).__name__}", "no-game"], capture
             graph = tap.graphs[0]
             capture["graph"] = {k: list(v) for k, v in graph.items()}
             for ref, ins in declared_graph(agents).items():
@@ -1252,6 +1484,7 @@ def run_env(case: dict) -> Tuple[List[str], dict]:
                 env.action_space.seed(case["seed"])
             for k in range(case["n_steps"]):
                 n_before = len(states)
+                live.begin_step()
                 try:
                     if env is not None:
                         _obs, rew, _term, _trunc, _info = env.step(env.action_space.sample())
@@ -1261,9 +1494,15 @@ def run_env(case: dict) -> Tuple[List[str], dict]:
                         for ag in game.rl_agents.values():
                             ag.store_action(arng.below(len(ag.action_manager.action_map)))
                         game.step()
-                except Exception:
+                except Exception as e:
                     if in_update[0]:
-                        raise  # inside update_agents: the reward layer itself (never seen on a real state dictionary)
+                        # inside update_agents on a REAL state dictionary: the reward layer (or the observation update it shares
+                        # access_from_nested_dict with) raised where the model computes a value — a failing input, not a crash
+                        in_update[0] = False
+                        import traceback
+                        check._bad(f"update_agents raised: step {k + 1} of {case.get('source')}: {type(e).__name__}: {e} on the real "
+                                   f"describe_state() dictionary | " + traceback.format_exc()[-600:].replace("\n", " | "))
+                        break
                     # an exception of the simulator / an agent, outside the reward layer (C01's subject): the run ends here and
                     # what was observed so far is compared; the traceback goes into the evidence notes
                     import traceback
@@ -1276,12 +1515,15 @@ def run_env(case: dict) -> Tuple[List[str], dict]:
                     items[ref] = {"action": str(h.action), "request": list(h.request), "status": h.response.status,
                                   "timestep": h.timestep}
                 paths = real_paths(game)
-                stp = {"dict": py_restrict(states[-1], paths), "items": items}
+                stp = {"dict": py_restrict(states[-1], paths), "items": items, "truth": live_truth(game, hostnames)}
+                live.after_step(game, ctap, check.desc, k + 1)
+                out.append(f"same {n_comps}")  # the answer expected from the driver's `truthcheck` (asked before its `step`)
                 if (k + 1) in full_at:  # the WHOLE real dictionary: serialisation, access_from_nested_dict, projection
                     capture["aux"].append({"family": "access", "state": states[-1], "paths": perturbed_paths(arng, paths, states[-1]),
                                            "restrict": paths, "from": f"{case.get('source')} step {k + 1}"})
                 out.append("ok " + show_agents(game))
                 out.append(show_mem(game))
+                out.append(show_info(game))
                 check.after_step(game, ctap, k + 1)
                 if (k + 1) in reset_at and env is not None:
                     # end of an episode: the environment's record of the episode total, then a new game
@@ -1300,14 +1542,25 @@ def run_env(case: dict) -> Tuple[List[str], dict]:
                                    f"but the agent's total at the end of that episode was {before!r}")
                     game = env.game
                     stp["reset_after"] = True
+                    if scheduled:  # the next episode has its own configuration: agents, components, sharing graph
+                        agents = agents_desc(env.episode_scheduler(env.episode_counter))
+                        stp["new_agents"] = agents
+                        g2 = tap.graphs[-1]
+                        stp["new_setorders"] = [(ins, list(g2[ref])) for ref, ins in declared_graph(agents).items() if ref in g2]
+                        check.reconfigure(agents)
+                        hostnames = {c["node"] for a in agents for c in a["comps"] if "node" in c}
+                        n_comps = sum(len(a["comps"]) for a in surviving(agents).values())
                     out.append("ok order=" + ",".join(esc(x) for x in game._reward_calculation_order) + " " + show_agents(game))
                     check.after_reset(game)
+                    live.mem.clear()
                     ctap.last.clear()
                 steps.append(stp)
             out.append(locs_answer(game))
             capture["game"] = game
             capture["leaks"] = list(ctap.leaks)
             capture["rechecked"] = ctap.rechecked
+            capture["live_checked"] = live.checked
+            capture["live_problems"] = list(live.problems)
             if env is not None:
                 env.close()
     finally:
@@ -1326,7 +1579,7 @@ def run_env(case: dict) -> Tuple[List[str], dict]:
     exact = case.get("weights", "dyadic") == "dyadic" \
         and all(_dyadic(c.get(f)) for a in agents for c in a["comps"] for f in ("weight", "ap", "dn") if f in c) \
         and all(len(cl) in (0, 1, 2, 4, 8, 16, 32) for st in steps for cl in code_lists(st["dict"]))
-    capture["observed"] = {"agents": agents, "steps": steps, "exact": exact}
+    capture["observed"] = {"agents": first_agents, "steps": steps, "exact": exact and not scheduled}
     capture["bounds"] = check.bounds
     capture["step_problems"] = list(check.problems.values())
     return out, capture
